@@ -1223,6 +1223,15 @@ pub fn generate(op: &str, rng: &mut Rng, budget: u64, f: &mut dyn FnMut(Vec<Stri
                         }
                     }
                 }
+                // the same positions again with the orientation changing fastest: consecutive calls that share the
+                // position and the depth but not the orientation (a memo keyed on too little shows here)
+                for sv in &fam {
+                    for o in [0u64, 1, 2, 3, 4, 5, 4, 2, 0, 3, 1, 5] {
+                        if !f(vec![n.to_string(), o.to_string(), sv.to_string()]) {
+                            return;
+                        }
+                    }
+                }
             }
             for _ in 0..budget {
                 let n = 1 + rng.below(29);
